@@ -224,7 +224,23 @@ impl Vocab {
     }
     /// month names of a language that the month parser can actually recognise: the parser keeps
     /// one long and one short name per month (the last one in key order).
+    /// the names of a month in a language: long names (sorted), then short names (sorted). For the two shipped
+    /// languages the table is fixed HERE (the calendar's month names are facts, not configuration: a configuration
+    /// or loader that maps a name to the wrong month must not be believed); other languages follow config.json.
     pub fn month_names(&self, lang: &str, month: u32) -> Vec<String> {
+        const EN_LONG: [&str; 12] = ["january", "february", "march", "april", "may", "june", "july", "august", "september", "october", "november", "december"];
+        const EN_SHORT: [&str; 12] = ["jan", "feb", "mar", "apr", "may", "jun", "jul", "aug", "sep", "oct", "nov", "dec"];
+        const TR_LONG: [&[&str]; 12] = [&["ocak"], &["subat", "şubat"], &["mart"], &["nisan"], &["mayis", "mayıs"], &["haziran"], &["temmuz"], &["agustos", "ağustos"], &["eylul", "eylül"], &["ekim"], &["kasim", "kasım"], &["aralik", "aralık"]];
+        const TR_SHORT: [&[&str]; 12] = [&["oca"], &["sub", "şub"], &["mar"], &["nis"], &["may"], &["haz"], &["tem"], &["agu", "ağu"], &["eyl"], &["eki"], &["kas"], &["ara"]];
+        if month < 1 || month > 12 {
+            return vec![];
+        }
+        let i = month as usize - 1;
+        match lang {
+            "en" => return vec![EN_LONG[i].to_string(), EN_SHORT[i].to_string()],
+            "tr" => return TR_LONG[i].iter().chain(TR_SHORT[i].iter()).map(|s| s.to_string()).collect(),
+            _ => {}
+        }
         let l = match self.langs.get(lang) {
             Some(l) => l,
             None => return vec![],
